@@ -48,7 +48,10 @@ func genC18(seed uint64, tier string) *plan.Plan {
 		// hand out values
 		for i := 0; i < r.Range(2, nkeys); i++ {
 			k := key(r.Intn(nkeys))
-			if r.Bool(800) {
+			if r.Bool(150) {
+				// an iterator over the whole DMap: every key it returns is kept
+				sc.Ops = append(sc.Ops, ent(plan.Op{K: "snap.scan"}))
+			} else if r.Bool(800) {
 				sc.Ops = append(sc.Ops, ent(plan.Op{K: "snap.get", Key: k}))
 			} else {
 				sc.Ops = append(sc.Ops, ent(plan.Op{K: "snap.getput", Key: k, Val: val()}))
